@@ -118,6 +118,39 @@ def run(ctx):
                                           {"dir": d, "bytes_accepted": k, "cache_size": full, "view": view, "who": who},
                                           observed={"out": (rr.out or b"")[:160], "exc": repr(rr.exc), "log": rr.log[-1:]}, required=(want or b"")[:160],
                                           replay={"dir": d, "cut_at": k, "view": view, "gplus": gplus, "write_fault": True})
+            # ... the same cut while an older, expired cache file of the directory's previous state is still there: what is left
+            # behind must not read as that older listing
+            for di, d in enumerate(dirs[:2]):
+                cpath = tree.path(d + "/" + cachefile)
+                for k in (1, 16, 64, 300):
+                    view, gplus = listing.VIEWS[(di + k) % len(listing.VIEWS)]
+                    if os.path.exists(cpath):
+                        os.unlink(cpath)
+                    listing.real_rows(view, gplus, cfg, d)
+                    with open(cpath, "rb") as f_:
+                        old_bytes = f_.read()
+                    tree.write(d.strip("/") + "/zz-added-%d.txt" % k, b"new\n")
+                    os.unlink(cpath)
+                    want = listing.real_rows(view, gplus, cfg, d)[0]
+                    with open(cpath, "wb") as f_:
+                        f_.write(old_bytes)
+                    os.utime(cpath, (1_000_000_000, 1_000_000_000))
+                    if k >= len(old_bytes):
+                        continue
+                    resource.setrlimit(resource.RLIMIT_FSIZE, (k, old_lim[1]))
+                    try:
+                        rows, r = listing.real_rows(view, gplus, cfg, d)
+                    finally:
+                        resource.setrlimit(resource.RLIMIT_FSIZE, old_lim)
+                    rows2, r2 = listing.real_rows(view, gplus, cfg, d)
+                    res.evaluations += 2
+                    res.nontrivial.add((d, "write-cut-over-old", k))
+                    for who, rw, rr in (("the request whose cache write was cut off", rows, r), ("the next request", rows2, r2)):
+                        if rw != want:
+                            res.violation("C11:cache-write-cut-off:over-older-cache", "a cache write cut off over an older cache file leaves the older listing in use",
+                                          {"dir": d, "bytes_accepted": k, "old_cache_size": len(old_bytes), "view": view, "who": who},
+                                          observed={"out": (rr.out or b"")[:200], "exc": repr(rr.exc), "log": rr.log[-1:]}, required=(want or b"")[:200],
+                                          replay={"dir": d, "cut_at": k, "view": view, "gplus": gplus, "write_fault": True})
         finally:
             resource.setrlimit(resource.RLIMIT_FSIZE, old_lim)
             signal.signal(signal.SIGXFSZ, old_xfsz)
